@@ -387,7 +387,10 @@ func TestVerifC12(t *testing.T) {
 			c12Features(res)
 			return
 		}
-		_, v := c12Run(sc, c.Choices, c.Sigs, ready)
+		sr, v := c12Run(sc, c.Choices, c.Sigs, ready)
+		if sr.Diverged != "" {
+			panic("VERIF-INFRA: the recorded schedule does not fit this tree: " + sr.Diverged)
+		}
 		if v.Class != "" {
 			res.finding("c12:"+v.Class+":"+sc.name(), v.Desc, c)
 		}
